@@ -212,6 +212,23 @@ claim('C14',
       'symbolic form checks (exact rationals) + guard-order / store-pattern rules on the search kernel',
       'DESIGN.md §4 C14')
 
+claim('C19',
+      'Static analysis: euclidean_distance and manhattan_distance are interpreted into exact normal forms equal to '
+      'sqrt((x1-x2)^2+(y1-y2)^2) and |x1-x2|+|y1-y2| (2-/1-norm templates: symmetry, zero iff coincident and the '
+      'triangle inequality then hold by theorem); great_circle_distance equals the haversine template with latitude '
+      'from y and longitude from x (parity-normalised trigonometric normal form), default radius 6378137, exactly '
+      'four two-sided range guards (+-180 for x, +-90 for y) and no return path that bypasses them; the metric '
+      'dispatch routes each constant to its same-named function with (x1, x2, y1, y2); the ellipse mask condition is '
+      '(x*half_h)^2 + (y*half_w)^2 <= (half_w*half_h)^2 on symmetric odd grids with x along columns, even in both '
+      'coordinates (flip symmetry by substitution); circle half sizes use the cell size of their own axis; the annulus '
+      'is outer minus the equally zero-padded inner circle; the unit table equals the SI factors with agreeing '
+      'aliases; non-positive, non-numeric and unknown-unit distances are rejected; custom kernels must be odd '
+      'ndarrays. Not decided: the triangle inequality under floating-point rounding.',
+      'Trusted: the textbook facts that norms are metrics and that the haversine formula gives the great-circle '
+      'distance (<= pi*R); SI unit factors.',
+      'symbolic normal-form comparison against formula templates + parity analysis + table/guard extraction',
+      'DESIGN.md §4 C19')
+
 ALL = ['C%02d' % i for i in range(1, 20)]
 
 
